@@ -926,7 +926,7 @@ def suite_multi_filter(tier, seed):
         elif "kinds" in g:
             g["kinds"] = sorted(set(g["kinds"]) | {1, 7})
         g.pop("limit", None)
-        lim = rng.choice([1, 2, 3, None, None])
+        lim = rng.choice([0, 1, 2, 3, None, None])
         if lim is not None:
             g["limit"] = lim
         return g
@@ -1001,7 +1001,12 @@ def suite_access_paths(tier, seed, backend="kv"):
                     await st.add_event(dict(e))
                 except Exception:
                     pass
+        for e in evs:
+            await st.get_event(e["id"])             # (a look-up before anything is removed: what it saw must not be served later)
         more = []
+        for k in range(2):
+            # stored events whose NIP-40 expiration has already passed stay stored - and found through every path - until a collector pass
+            more.append(grind_event(k, 1, 1005 + k, [["expiration", str(900 + k)], ["t", "ab"]], None))
         for k in range(rng.randint(2, 5)):
             base = rng.choice(evs)
             who = env.PUBS.index(base["pubkey"])
